@@ -1202,6 +1202,15 @@ func c02Tasks(tier string) []mc.Task {
 		})
 	}
 
+	// (c') names holding multi-byte characters (valid UTF-8): alone, inside and at both ends of a name
+	add("names#multibyte", func(c *mc.Ctx) {
+		for _, ch := range []string{"\u00e9", "\u00dc", "\u03b1", "\u20ac", "\u017f"} {
+			for _, nm := range []string{ch, "s" + ch + "q_1", ch + "x", "x" + ch, ch + ch} {
+				c02NameCases(c, nm)
+				c02Check(c, c02Case{Kind: "rt", Rows: rows{{"r0", "ACGT"}, {nm, "AC-T"}, {nm + "2", "TTGA"}}})
+			}
+		}
+	})
 	// (c) names
 	add("names#printable-L1", func(c *mc.Ctx) {
 		forEachString(c02Printable, 1, 1, func(s []byte) bool { c02NameCases(c, string(s)); return !c.Expired() })
